@@ -125,8 +125,9 @@ func (m *M) callFn(fn *ssa.Function, args []Value, env []Value, retTo ssa.Value,
 	if target, ok := ex.Cfg.Replace[name]; ok {
 		tf := ex.replacement(target)
 		ex.mu.Lock()
-		ex.StubHit["replace "+name+" => "+target] ++
+		ex.StubHit["replace "+name+" => "+target]++
 		ex.mu.Unlock()
+		m.noteSchedEvent(name)
 		m.pushFrame(tf, args, nil, retTo, isDefer)
 		m.st.top().Atomic = true
 		return
@@ -140,6 +141,7 @@ func (m *M) callFn(fn *ssa.Function, args []Value, env []Value, retTo ssa.Value,
 		if _, pushed := res.(framePushed); pushed {
 			return
 		}
+		m.noteSchedEvent(name)
 		m.setResult(retTo, res)
 		return
 	}
@@ -575,7 +577,7 @@ func init() {
 			m.st.ClockFrozen = a[0].(*smt.Term).IsTrue()
 			return nil
 		},
-		"vnative":          func(m *M, fn *ssa.Function, a []Value) Value { return smt.False },
+		"vnative": func(m *M, fn *ssa.Function, a []Value) Value { return smt.False },
 		"vbound": func(m *M, fn *ssa.Function, a []Value) Value {
 			if m.ex.Cfg.Tier == "thorough" {
 				return a[1]
@@ -770,7 +772,6 @@ func (m *M) auxKeyOf(owner Value, name string) auxKey {
 	}
 	return auxKey{Obj: p.Obj, Path: pathKey(p.Path), Name: name}
 }
-
 
 // callMerged explores every path of a pure, scalar-returning callee on a cloned state and returns
 // ite(pc1, r1, ite(pc2, r2, ...)) to the single calling state. The callee must not write to objects that
